@@ -251,7 +251,7 @@ def tr31_unwrap(kbpk, s):
     return f, blks, clear[2:2 + bits // 8]
 
 
-def tr31_wrap(kbpk, fields, blks, key, pad, rng=None, ext_all=False, lower=False, pb_size=None):
+def tr31_wrap(kbpk, fields, blks, key, pad, rng=None, ext_all=False, lower=False, pb_size=None, pb_ext=False, ll=2):
     """Independent wrap with encoding freedoms: `pad` = the random key padding bytes (its length
     decides how many padding blocks), ext_all = every optional block in extended-length form,
     lower = lower-case hex in the binary section, pb_size = extra multiples of the block size in the pad block."""
@@ -261,11 +261,18 @@ def tr31_wrap(kbpk, fields, blks, key, pad, rng=None, ext_all=False, lower=False
     bt = ""
     for bid, data in blks:
         if ext_all or len(data) + 4 > 255:
-            bt += bid + "0002" + "%04X" % (len(data) + 10) + data
+            l2 = ll if len(data) + 6 + 2 * ll < 16 ** (2 * ll) else 2
+            bt += bid + "00" + "%02X" % l2 + ("%0" + str(2 * l2) + "X") % (len(data) + 6 + 2 * l2) + data
         else:
             bt += bid + "%02X" % (len(data) + 4) + data
     n = len(blks)
-    if len(bt) % bs or pb_size:
+    if pb_ext and (len(bt) % bs or pb_size):
+        # the pad block itself in extended-length form: PB 00 <length of length> <length> filler
+        over = 6 + 2 * ll
+        padn = (-(len(bt) + over)) % bs + bs * (pb_size or 0)
+        bt += "PB" + "00" + "%02X" % ll + ("%0" + str(2 * ll) + "X") % (over + padn) + "0" * padn
+        n += 1
+    elif len(bt) % bs or pb_size:
         padn = (-(len(bt) + 4)) % bs + bs * (pb_size or 0)
         if padn == 0 and not pb_size:
             padn = bs
